@@ -254,6 +254,25 @@ def run_case(sh, mods, pars, ng, omfloat, case, passes=3, with_translation=True,
                             sh.violation("refinement:first-pass-leaves-grain-far-from-its-position", dict(case, grain=k),
                                          {"error_um": e1, "translation": g1[k].translation, "truth": truth[k][1]})
                             break
+                    # the peak file saved WITH that grain file carries, per peak, two-theta and eta as seen from the position saved for its
+                    # grain (reference formulas), not from where the grain started
+                    if len(g1) == ng and not cubic and not legacy and "tth_per_grain" in first_flt.titles:
+                        det = {k_: pars[k_] for k_ in ("distance", "y_center", "z_center", "y_size", "z_size", "tilt_x", "tilt_y", "tilt_z", "o11", "o12", "o21", "o22")}
+                        xyz1 = tr.compute_xyz_lab(np.array([first_flt.sc, first_flt.fc]), **det)
+                        lab1 = first_flt.labels.astype(int)
+                        for k in range(ng):
+                            m1 = lab1 == k
+                            if not m1.any() or tie:
+                                continue
+                            tk = g1[k].translation
+                            t_ref, e_ref = tr.compute_tth_eta_from_xyz(xyz1[:, m1], first_flt.omega[m1] * pars["omegasign"], t_x=tk[0], t_y=tk[1], t_z=tk[2],
+                                                                       wedge=pars["wedge"], chi=pars["chi"])
+                            dt_ = np.abs(np.asarray(first_flt.tth_per_grain, float)[m1] - t_ref)
+                            de_ = np.abs((np.asarray(first_flt.eta_per_grain, float)[m1] - e_ref + 180.0) % 360.0 - 180.0)
+                            if dt_.max() > 2e-3 or (de_ * np.abs(np.sin(np.radians(t_ref)))).max() > 2e-3:
+                                sh.violation("saved-file[first pass]:per-grain-angles-are-not-those-seen-from-the-saved-position", dict(case, grain=k),
+                                             {"max_dtth_deg": float(dt_.max()), "max_deta_deg": float(de_.max())})
+                                break
         finally:
             os.chdir(cwd)
             if frame_threads:
@@ -315,6 +334,15 @@ def run_case(sh, mods, pars, ng, omfloat, case, passes=3, with_translation=True,
             hr = np.array([flt.hr, flt.kr, flt.lr])[:, peaks[:, 3] >= 0]
             if np.abs(hr - np.round(hr)).max() > 5e-3:
                 sh.violation("saved-file:real-hkl-far-from-integer", case, {"max": float(np.abs(hr - np.round(hr)).max())}); ok = False
+            # ... and the per-grain angles: two-theta and eta of every peak as seen from the REFINED position of its grain (the simulated
+            # ones, to 5e-3 degrees - a 50 um start error shows as 0.01 .. 0.3 degrees)
+            if ok and not cubic and not frame_threads and not wrap360 and "tth_per_grain" in flt.titles:
+                own = peaks[:, 3] >= 0
+                dt_ = np.abs(np.asarray(flt.tth_per_grain, float)[own] - peaks[own, 7])
+                de_ = np.abs((np.asarray(flt.eta_per_grain, float)[own] - peaks[own, 8] + 180.0) % 360.0 - 180.0)
+                if dt_.max() > 5e-3 or (de_ * np.abs(np.sin(np.radians(peaks[own, 7])))).max() > 5e-3:
+                    sh.violation("saved-file:per-grain-angles-are-not-those-seen-from-the-refined-position", case,
+                                 {"max_dtth_deg": float(dt_.max()), "max_deta_deg": float(de_.max())}); ok = False
             for k in range(ng):
                 m = lab == k
                 gcalc = np.dot(np.linalg.inv(final[k].ubi), peaks[m, 4:7].T)
